@@ -34,6 +34,11 @@ type Plan struct {
 	// Prefill: that many tasks are enqueued before the scripted tasks start (a
 	// non-empty queue under several concurrent consumers: head contention).
 	Prefill int `json:"prefill,omitempty"`
+	// Bulk: that many tasks are enqueued one after the other before anything else
+	// (thousands: a long queue at rest); Length and IsEmpty must tell the truth
+	// about it, then two producers add a few more and everything is drained in
+	// order. Too long for the linearizability checker, judged like Stall plans.
+	Bulk int `json:"bulk,omitempty"`
 }
 
 func Generate(seed uint64, prop, tier string) *Plan {
@@ -53,6 +58,12 @@ func Generate(seed uint64, prop, tier string) *Plan {
 			churn = append(churn, "enq", "deq")
 		}
 		p.Tasks = append(p.Tasks, churn)
+		return p
+	}
+	if r.Chance(1, 120) {
+		p.Bulk = r.Pick(1000, 4095, 4096, 4097, 5000, 10000)
+		p.Stall = 1 // (judged without the linearizability checker)
+		p.Tasks = [][]string{{"enq", "enq"}, {"enq"}}
 		return p
 	}
 	if r.Chance(1, 4) {
@@ -212,7 +223,7 @@ func Execute(t *testing.T, p *Plan, prop string) (out runner.Outcome) {
 				for i := 0; i < 40*len(p.Tasks[1])+100; i++ {
 					cfg.Decisions = append(cfg.Decisions, "t1|0")
 				}
-				cfg.MaxSteps = 200000
+				cfg.MaxSteps = 200000 + 40*p.Bulk
 			}
 			s := vsched.New(cfg)
 			defer s.Close()
@@ -224,6 +235,19 @@ func Execute(t *testing.T, p *Plan, prop string) (out runner.Outcome) {
 			var deqOrder []int // ids in the order they came out (meaningful with one consumer at a time)
 			s.OnPanic = func(task string, v any, stack []byte) { fail("panic", "task %s panicked: %v", task, v) }
 			s.OnQuiescent = func(int) int { return vsched.QStop }
+			for i := 0; i < p.Bulk; i++ {
+				nextID++
+				enqueued[nextID] = 98
+				tk := queue.GetTask()
+				tk.Param = nextID
+				q.Enqueue(tk)
+			}
+			if p.Bulk > 0 {
+				probes["long-queue-at-rest"]++
+				if n := q.Length(); int(n) != p.Bulk || q.IsEmpty() {
+					fail("length", "Length()=%d IsEmpty()=%v with no operation in flight and %d tasks in the queue", n, q.IsEmpty(), p.Bulk)
+				}
+			}
 			for i := 0; i < p.Prefill; i++ {
 				// sequential set-up, recorded as completed operations of a client of its own
 				nextID++
